@@ -25,6 +25,8 @@ type Verifier struct {
 	te      *TypeEnv
 	sorts   map[string]Sort
 	funcs   map[string]*ssa.Function // canonical name -> function
+	inlOnly map[*ssa.Function]bool
+	renames map[string]map[string][]string // funcDeclKey -> old local name -> new names (alpha-renamed since the baseline)
 	fids    map[*ssa.Function]int
 	gids    map[string]int
 	mu      sync.Mutex
@@ -70,6 +72,7 @@ func loadVerifier(repo, specDir string) (*Verifier, error) {
 		return nil, err
 	}
 	v.ct = ct
+	v.renames = loadRenames(repo, filepath.Join(filepath.Dir(specDir), "baseline"))
 	v.analyseGlobals()
 	return v, nil
 }
